@@ -21,6 +21,7 @@ from .serialization import (
     HILBERT_START_BIT
 )
 from .cell_info import get_num_children
+from .. import _verif
 
 
 def uncompact(cells: List[int], target_resolution: int) -> List[int]:
@@ -47,6 +48,9 @@ def uncompact(cells: List[int], target_resolution: int) -> List[int]:
 
         resolutions.append(resolution)
         n += get_num_children(resolution, target_resolution)
+
+    if _verif.ENABLED:
+        _verif.emit({'ev': 'uncompact.size', 'n': n, 'resolutions': list(resolutions)})
 
     # Write directly into pre-allocated list
     result = [0] * n
@@ -92,6 +96,9 @@ def compact(cells: List[int]) -> List[int]:
 
     # Single sort and dedup
     current_cells = sorted(set(cells), key=_sort_key)
+
+    if _verif.ENABLED:
+        _verif.emit({'ev': 'compact.start', 'cells': list(current_cells)})
 
     # Compact until no more changes
     # No re-sorting needed - parents maintain sorted order!
@@ -149,5 +156,7 @@ def compact(cells: List[int]) -> List[int]:
             i += 1
 
         current_cells = result
+        if _verif.ENABLED:
+            _verif.emit({'ev': 'compact.pass', 'cells': list(current_cells), 'changed': changed})
 
     return current_cells
